@@ -25,6 +25,9 @@ func init() {
 			{ID: "R20c", Floor: 3, Doc: "Close leaves closed on every return; callbacks get len(content); once-only removal keeps order", Run: ruleR20c},
 			{ID: "R20d", Floor: 1, Doc: "OnPut registers every callback it is given, whenever it is called: no return of OnPut bypasses the append to the callback list", Run: ruleR20d},
 			{ID: "R20e", Floor: 1, Doc: "Close finalizes whatever writer exists: from `w != nil` the call of w.Finalize is unavoidable (whether the output is a CARv1 or a CARv2 is the writer's business, decided by the same options the direct writer gets)", Run: ruleR20e},
+			{ID: "R20f", Floor: 1, Doc: "DeferredCarWriter.Put answers with what the underlying writer's Put answers: it has no `return nil` of its own (a put that is acknowledged here without reaching the writer is a block missing from the CAR)", Run: ruleR20f},
+			{ID: "R20g", Floor: 2, Doc: "the deferred writer hands the direct writer exactly the roots it was given: the constructors store their roots parameter itself (a rebuilt list turns nil into empty, and the header encodes the two differently)", Run: ruleR20g},
+			{ID: "R20h", Floor: 1, Doc: "OnPut can be called from inside a Put callback: Put runs the callbacks while holding the writer's lock, so OnPut must not acquire it", Run: ruleR20h},
 		},
 	})
 }
@@ -494,4 +497,74 @@ func ruleR20e(c *Ctx, r *Report) {
 		}
 	}
 	r.Check(bad == "", key, c.Pos(fin.Pos()), "w != nil leads to Finalize on every path", bad)
+}
+
+func ruleR20f(c *Ctx, r *Report) {
+	fn, err := c.Func(pkgDeferred, "DeferredCarWriter", "Put")
+	if err != nil {
+		r.InfraFail("%v", err)
+		return
+	}
+	key := "put-delegates@" + fnKey(fn)
+	bad := ""
+	n := 0
+	for _, ret := range returnsOf(fn) {
+		if len(ret.Results) != 1 {
+			continue
+		}
+		n++
+		if resultIsNilConst(ret, 0) {
+			bad = fmt.Sprintf("Put returns nil at %s without the underlying writer having been asked", c.Pos(ret.Pos()))
+		}
+	}
+	r.Check(bad == "", key, c.Pos(fn.Pos()), fmt.Sprintf("%d return(s): errors, or the underlying Put's result", n), bad)
+}
+
+func ruleR20g(c *Ctx, r *Report) {
+	for _, name := range []string{"NewDeferredCarWriterForPath", "NewDeferredCarWriterForStream"} {
+		fn, err := c.Func(pkgDeferred, "", name)
+		if err != nil {
+			r.InfraFail("%v", err)
+			continue
+		}
+		key := "roots-passed-through@" + fnKey(fn)
+		n, bad := 0, ""
+		eachInstr(fn, func(in ssa.Instruction) {
+			st, ok := in.(*ssa.Store)
+			if !ok {
+				return
+			}
+			if fa, ok := st.Addr.(*ssa.FieldAddr); ok && fieldAddrIs(fa, pkgDeferred, "DeferredCarWriter", "roots") {
+				n++
+				for _, o := range origins(st.Val, originOpts{}) {
+					if o.Kind != "param" {
+						bad = fmt.Sprintf("the roots kept at %s are built from %s, not the parameter itself", c.Pos(st.Pos()), o.Kind)
+					}
+				}
+			}
+		})
+		if n == 0 {
+			r.Undec(key, c.Pos(fn.Pos()), "no store to the roots field found")
+			continue
+		}
+		r.Check(bad == "", key, c.Pos(fn.Pos()), "roots field = roots parameter", bad)
+	}
+}
+
+func ruleR20h(c *Ctx, r *Report) {
+	fn, err := c.Func(pkgDeferred, "DeferredCarWriter", "OnPut")
+	if err != nil {
+		r.InfraFail("%v", err)
+		return
+	}
+	key := "onput-lock-free@" + fnKey(fn)
+	bad := ""
+	eachInstr(fn, func(in ssa.Instruction) {
+		if ci, ok := in.(ssa.CallInstruction); ok {
+			if _, _, isLock := lockOp(ci.Common()); isLock {
+				bad = fmt.Sprintf("OnPut takes a lock at %s; Put invokes the registered callbacks with the writer's lock held, so a callback that registers another listener never returns", c.Pos(in.Pos()))
+			}
+		}
+	})
+	r.Check(bad == "", key, c.Pos(fn.Pos()), "acquires no lock", bad)
 }
